@@ -73,7 +73,7 @@ def drive(ctx, nscen, callers, percall, race=False, gates=True):
     m = re.search(r"VFGATES written=(\d+) inconclusive=(.*)", out)
     if gates and m and m.group(2).strip() not in ("[]", ""):
         ctx.notes.append("gate scenarios inconclusive (not counted): " + m.group(2))
-    files = sorted(glob.glob(os.path.join(ctx.tmp, "conn_*.ndjson")))
+    files = sorted(f for f in glob.glob(os.path.join(ctx.tmp, "conn_*.ndjson")) if re.search(r"conn_g?\d+\.ndjson$", f))
     if not files and not crashed:
         raise vf.Inconclusive("driver produced no traces:\n" + out[-2000:])
     return files, crashed, out
@@ -144,7 +144,14 @@ def run_conn(ctx, prop):
     acc, drifted, skipped, rejected, propviol = conformance(ctx, cfiles)
     ctx.log("conformance to Conn.tla: accepted=%d (with discipline drift %d) skipped=%d rejected=%d invariant violations=%d" % (
         acc, drifted, skipped, len(rejected), len(propviol)))
-    for path, inv, at, evs in propviol[:10]:
+    # NoLeak / Conservation of the reconstructed behaviour depend on the x_release hook lines being
+    # present (a lost line looks like a leak); the black-box allocator sample of the monitor decides
+    # leaks, so these two are reported as drift here, never as violations.
+    hookdep = [v for v in propviol if v[1] in ("NoLeak", "Conservation")]
+    if hookdep:
+        ctx.add_drift("%d reconstructed behaviours violate %s of Conn.tla (depends on the release hook lines; the allocator "
+                      "sample at quiescence is the deciding observation)" % (len(hookdep), sorted({v[1] for v in hookdep})))
+    for path, inv, at, evs in [v for v in propviol if v[1] not in ("NoLeak", "Conservation")][:10]:
         if inv in KINDS[prop]:
             kindconn = [e for e in evs if e["ev"] == "env_conn"][0]
             ctx.violation("conf-" + inv, "%s of Conn.tla is violated in the behaviour reconstructed from a recorded execution "
